@@ -32,7 +32,20 @@ prop(
         "PDU after PDU (at most 48) and every read is judged by the same damage oracle as the enumerated faults (no panic, completion within the poll budget, at most two reads "
         "after end-of-stream, bounded consumption, never Ok for a stream ending inside the PDU / a type the reader does not take / an impossible length, an accepted PDU ends where "
         "its length field says and writes back to the octets read). Headers announcing more than 1 MiB are not handed to the library there. Seeded with ~470 generated PDUs, "
-        "sequences, truncations and length-damaged headers; executions are counted as evaluations, not as signatures."
+        "sequences, truncations and length-damaged headers; executions are counted as evaluations, not as signatures. "
+        "Connection level (native and ASan stages; thorough also a third of the Miri shards): the readers one level up are driven over a mock socket. "
+        "(a) Client::step on a protocol-valid response transcript laid out by the independent encoder - Cache Response, 0..6 payload PDUs of the types the version carries, End of Data - "
+        "for protocol versions 0..2 and five paths (reset query; serial query; serial query answered by Cache Reset then reset query; the last two again after a completed exchange "
+        "and a Serial Notify on the same connection, i.e. with the version already negotiated; the client asks with the response's version or a higher one), in which exactly one "
+        "header field of exactly one PDU is overwritten - at every PDU position: version (0..4, 0x7F, 0x80, 0xFE, 0xFF, two random), type (0..13, 0x7F, 0x80, 0xFF, one random), "
+        "length (31 boundary values around 8/12/20/24/32 and the true length, up to 2^16+4), session/flags field (3 values) - or which ends after every octet count of the response, "
+        "delivered all at once and in one of byte-wise+Pending / random chunk script (second pattern: version and truncation faults). The step future is polled by hand with a counting "
+        "waker inside an entered, never driven paused-clock runtime. (b) the real Server::run with one mock connection fed a stream of 1..3 router PDUs (reset query, serial query with "
+        "known / current / unknown state, Error Report, PDUs a router must not send, unsupported version, version switch) that ends at every octet count 0..=len (before the first header, "
+        "inside a header, inside the serial query payload, inside an Error Report, after a complete and answered query), in one of the three delivery patterns, a quarter with a "
+        "notification fired in the first scheduler turns; the driver yields turn by turn. One evaluation = one judged client step or one server connection run. "
+        "Signatures: (client path, version, damage class, PDU position first/middle/last/only payload | cache response | end of data, PDU type, delivery) and "
+        "(server: PDU the stream ends in, version, where it ends, delivery, notification?)."
     ),
     assumptions=[
         "the wire layout of the harness' encoder is the one of RFC 6810 / RFC 8210 and of the ASPA PDU as implemented (flags in the high octet of the session field, customer, providers)",
@@ -41,6 +54,14 @@ prop(
         "for a header that is still well-formed after a field was overwritten, acceptance and refusal are both allowed; if accepted the value must write back to exactly the octets read",
         "a read is 'bounded' when an accepted PDU ends exactly where its length field says and a refusal has taken no more than max(32, announced length) octets (32 = largest fixed layout); 'does not spin' means at most two reads after end-of-stream and completion within 16*(stream length+8)+64 polls",
         "memory allocated for an announced length is not judged (the library allocates the announced size for router keys and ASPA)",
+        "connection level, what must end in Err from Client::step: a response in which exactly one PDU's version octet differs from all others (whichever version the client takes for the "
+        "negotiated one, the next PDU at the latest announces a wrong one), a type octet no cache ever sends (1, 2, 5, 12..255; Serial Notify 0 is left open), a length no PDU of that type "
+        "can have (fixed-size PDUs: any other value; Router Key < 32; ASPA < 12 or not 12+4k), a stream that ends before the End of Data is complete; the client must not have taken more than "
+        "the damaged PDU and the one after it (version) / max(32, announced length) octets (type, length). Everything else (a type change that gives another well-formed PDU of a possible "
+        "length, a still possible length of a variable-length PDU, a changed session/flags field) is recorded as accepted/refused, not judged; an undamaged transcript that is refused is "
+        "reported as a note. A step that returns Pending without a wake-up (waiting on a timer) is recorded, not judged",
+        "connection level, server: after the peer closed, the connection task must be gone (socket dropped) within 16*(stream length+8)+64 scheduler turns, without reading the socket more "
+        "than twice after end-of-stream (the mock answers the third read with an error, which turns a busy loop on a closed socket into a bounded, observable event) and without sitting idle",
     ],
     level_text=(
         "Fault enumeration at the stream level: for every generated PDU and PDU sequence all truncation points and all values of the header's type and version octet "
@@ -49,12 +70,15 @@ prop(
         "value written and against an independent encoder. Miri repeats one value of every PDU type with all truncations (packed structs, raw slices, "
         "get_unchecked_mut in skip_payload); ASan repeats the native workload at reduced size. The thorough tier ends with 2 minutes of coverage-guided libFuzzer "
         "(16 forks, ASan build) over arbitrary byte streams through the same entry points and the same oracle, so payload octets and header fields are varied together, "
-        "not one header field at a time."
+        "not one header field at a time. The connection-level part executes the same fault classes against the two stateful readers built on the PDU layer - Client::step (serial(), reset(), "
+        "the first-reply readers, version bookkeeping across PDUs and across exchanges) and the server's connection task (header read raced against notifications) - at every PDU position "
+        "of a response and every octet position of a query stream, with logical bounds (poll budget, scheduler-turn budget, reads after end-of-stream) instead of a clock."
     ),
     level_note=(
         "Field values and multi-PDU sequences are sampled, not enumerated; PDUs above 4 KiB get a boundary-dense subset of truncation points; "
-        "byte-wise delivery is complete only up to 160 octets per stream. A spin that never touches the reader would only be seen by the outer watchdog (inconclusive)."
+        "byte-wise delivery is complete only up to 160 octets per stream. A spin inside one poll that never touches the reader would only be seen by the outer watchdog (inconclusive). "
+        "Connection level: one damaged header field per transcript, values of the fields sampled at boundaries; the server's output side never blocks in this workload (C08 covers that)."
     ),
-    technique="runtime oracle + fault enumeration (truncating AsyncRead, poll budget) + Miri/ASan + libFuzzer",
+    technique="runtime oracle + fault enumeration (truncating AsyncRead, poll budget; PDU readers, Client::step and the server connection task) + Miri/ASan + libFuzzer",
     design_ref="DESIGN.md §4 C07",
 )
